@@ -658,3 +658,14 @@ def run(ctx):
     # nothing __call__ itself remembers between calls (a memo of "the last query") may change an answer
     from . import c06
     ctx.guard(c06.r06_7)
+
+
+_run_before_replay = run
+
+
+def run(ctx):
+    _run_before_replay(ctx)
+    # small-model replay of the real tree: the interplay of cache, search hint, dependency tree, splitting and rounding over
+    # whole query histories, on exact rationals with symbolic noise (replay.py)
+    from . import replay_rules
+    ctx.guard(replay_rules.r05_8)
